@@ -1,6 +1,7 @@
 """Area module of the CVC (C sources) engine: `units(prop, tier)` is called for every property id and returns the runner
 units this engine contributes (unit ids are unique and start with `c.`); [] for properties it has nothing for.
 
+    C01  src/raw_ocb.c: L table of OCB_start_operation (L_* = E_K(0), doublings), double_L, ntz
     C07  src/pkcs1_decode.c, every function: functional postconditions (RFC 8017 7.2.2 / 7.1.2) + memory safety
     C11  src/raw_ctr.c (increments, counter blocks, start_operation limits, CTR_encrypt position/limit logic),
          src/chacha20.c (init, core counter + ERR_MAX_DATA, seek over the integers, encrypt buffering)
@@ -39,7 +40,11 @@ def _prefix(us):
 
 def units(prop, tier):
     us = []
-    if prop == 'C07':
+    if prop == 'C01':
+        # OCB (RFC 7253) key-dependent table: wrong L entries break the AEAD only after 2**16 blocks -- out of reach for tests
+        if _have(MODULES['raw_ocb']):
+            us += U.c_units(prop, MODULES['raw_ocb'], ['double_L', 'ntz', 'OCB_start_operation'], kinds='functional')
+    elif prop == 'C07':
         us += U.c_units(prop, MODULES['pkcs1_decode'])
     elif prop == 'C11':
         us += U.c_units(prop, MODULES['raw_ctr'])
@@ -47,7 +52,7 @@ def units(prop, tier):
     elif prop == 'C02':
         us += U.c_units(prop, MODULES['chacha20'], ['chacha20_core'], kinds='functional')
         if _have(MODULES['raw_ocb']):
-            us += U.c_units(prop, MODULES['raw_ocb'], kinds='functional')
+            us += U.c_units(prop, MODULES['raw_ocb'], ['double_L', 'ntz', 'OCB_start_operation'], kinds='functional')
     elif prop == 'C09':
         us += U.c_units(prop, MODULES['raw_ctr'], ['CTR_encrypt'], kinds='functional')
         us += U.c_units(prop, MODULES['chacha20'], ['chacha20_encrypt'], kinds='functional')
